@@ -157,7 +157,9 @@ def marshal(
                     # all bytes were depleted
                     return obj
             except ConstraintViolatedError as error:
-                bytes_remaining = bytes(itertools.chain((byte,), buffer_iter))
+                # the look-ahead byte is only pending if the buffer was not depleted
+                lookahead = () if buffer_depleted else (byte,)
+                bytes_remaining = bytes(itertools.chain(lookahead, buffer_iter))
                 error.set_bytes_remaining(bytes_remaining)
                 raise error
 
